@@ -141,6 +141,7 @@ macro_rules! eff_harness {
             #[kani::stub(crate::store_impl::StoreImpl::do_reduce, crate::verif_kani::g_effects::sum_reduce_eff)]
             #[kani::stub(crate::store_impl::StoreImpl::do_notify, crate::verif_kani::g_glue::sum_notify)]
             #[kani::stub(crossbeam::hooks::block, eff_block)]
+            #[kani::stub(crossbeam::hooks::yield_point, crate::verif_kani::rt::default_yield)]
             $(#[$m])*
             fn $name() $body
         }
@@ -149,7 +150,7 @@ macro_rules! eff_harness {
 
 fn eff_setup(kinds: [u8; 2], k: usize, cap: usize) -> (Arc<Store>, [u8; MAXA]) {
     g_reset();
-    crossbeam::hooks::set_native(None, Some(eff_block));
+    crossbeam::hooks::set_native(Some(rt::default_yield), Some(eff_block));
     unsafe {
         STOP_CALLED = false;
         IN_BLOCK = false;
@@ -308,26 +309,14 @@ eff_harness! { #[kani::unwind(7)] fn g_effects_backlog_at_stop_ctx_thunk() { eff
 // (e.g. the pool lock, needed to submit effects), nobody can make progress.
 // -----------------------------------------------------------------------------------------
 fn join_yield(kind: u8, obj: usize) {
-    if kind == crossbeam::hooks::JOIN && rt::at_placement(kind, obj) {
-        unsafe {
-            rt::IN_UNIT = true;
-            rt::UNIT_IS_AWAITED = true;
-        }
-        rt::run_loop(obj);
-        unsafe {
-            rt::UNIT_IS_AWAITED = false;
-            rt::IN_UNIT = false;
-        }
-    }
+    rt::on_join(kind, obj)
 }
 fn join_runs_loop(kind: u8) {
     let (store, acts) = eff_setup([kind, E_NONE], 1, 4);
     crossbeam::hooks::set_native(Some(join_yield), Some(eff_block));
-    rt::arm(crossbeam::hooks::JOIN, 0, 0);
     store.stop();
     unsafe {
         STOP_CALLED = true;
-        rt::PLACE_ARMED = false;
     }
     rt::run_loop(0);
     rt::run_pending(4);
